@@ -13,7 +13,7 @@
    The checkers [linear_path_valid], [ssa_path_valid], [tree_complete_b] are what the
    check runs, inside Coq, on every path / tree the real optimizers return. *)
 From Coq Require Import Lia Permutation.
-From Ctg Require Import Base Net PathValid BaseFacts PathValidFacts.
+From Ctg Require Import Base Net PathValid Processor BaseFacts PathValidFacts ProcessorFacts.
 
 (* ---- path_valid_sound -------------------------------------------------------- *)
 (* an accepted linear path: every step references existing distinct positions, the
@@ -69,7 +69,47 @@ Theorem C05_tree_complete_b_sound : forall n ch, tree_complete_b n ch = true -> 
 Proof. exact tree_complete_b_sound. Qed.
 Print Assumptions C05_tree_complete_b_sound.
 
+(* ---- processor_paths_valid (partial) ------------------------------------------ *)
+(* Every mutation ContractionProcessor makes to (nodes, ssa, ssa_path) is contract_nodes(i, j)
+   or the single-term step of simplify_single_terms (abstract machine of Model/Processor.v; heap
+   order, scores, legs are abstracted: [os] is ANY sequence of such operations that does not
+   hit a KeyError, [choose] ANY rule picking two distinct present nodes in
+   optimize_remaining_by_size).  Then one node is left and the recorded ssa_path is a valid
+   complete SSA path (hence, by C05_ssa_path_valid_sound / C05_from_ssa_path_complete, a
+   complete contraction).  Covers greedy, random-greedy, optimal, disconnected leftovers, N = 1, 2.
+   PARTIAL: (i) that the concrete passes only emit such operations is tied by the executed
+   correspondence (cp_simplify / cp_greedy / cp_remaining vs the code), not by a refinement
+   proof; (ii) validity of ssa_to_linear's output is not proved: the model ssa_to_linear is
+   compared output-for-output and every returned linear path is judged by linear_path_valid. *)
+Theorem C05_processor_paths_valid_partial : forall n os a choose fuel, 1 <= n ->
+  a_run (a_init n) os = Some a -> choose_ok choose -> length (a_present a) <= S fuel ->
+  exists a', a_remaining choose fuel a = Some a' /\ length (a_present a') = 1 /             ssa_path_valid n (a_path a') = true.
+Proof. exact processor_ssa_path_valid. Qed.
+Print Assumptions C05_processor_paths_valid_partial.
+
+(* ---- partition_builder_complete: REFUTED for build_agglom (finding 17) ---------- *)
+(* a partition function of the right length that merges nothing (every group its own label)
+   makes the while loop of build_agglom run for ever: no amount of fuel suffices *)
+Theorem C05_build_agglom_terminates_refuted :
+  exists (memb_fn : list nset -> list nat) (n groupsize : nat),
+    (forall l, length (memb_fn l) = length l) /\ groupsize >= 2 /    forall fuel, build_agglom (sub_of_table []) memb_fn groupsize fuel n = None.
+Proof. exact build_agglom_terminates_refuted. Qed.
+Print Assumptions C05_build_agglom_terminates_refuted.
+
 (* non-vacuity *)
+Example C05_nonvacuous_processor :
+  exists a, a_run (a_init 4) [ASingle 1; AContract 0 4; AContract 2 3] = Some a /            a_present a = [5; 6] /\ a_path a = [[1]; [0; 4]; [2; 3]].
+Proof. eexists. vm_compute. repeat split. Qed.
+Example C05_repaired_agglom :
+  exists t, build_agglom_fixed (sub_of_table []) id_membership 4 5 = Some t /\ Permutation (leaves t) (seq 0 5).
+Proof. exact build_agglom_fixed_id5. Qed.
+Example C05_divide_example :
+  match build_divide (sub_of_table []) (fun s => map (fun x => Nat.modulo x 2) s) 1 6 with
+  | Some t => tree_complete_b 6 (children_of t) = true
+  | None => False
+  end.
+Proof. vm_compute. reflexivity. Qed.
+
 Example C05_nonvacuous_path :
   linear_path_valid 5 [[0]; [0; 3]; [1; 2; 0]; [0; 1]] = true /\
   ssa_path_valid 4 [[0; 3]; [2; 4]; [1; 5]] = true /\
